@@ -13,11 +13,15 @@ from . import common
 LEVEL = 'exploration'
 
 # failure-kind prefix -> id of a recorded finding
-KNOWN = {}
+KNOWN = {'error-status-missing:store:merged-not-notebook:object': 'C20-store-accepts-non-notebook-object',
+         'disk-changed-on-error:accepted:store:merged-not-notebook:object': 'C20-store-accepts-non-notebook-object'}
 
 KINDS = ['diff-not-consistent', 'merge-not-library', 'store-wrong-location', 'store-not-refused', 'store-content-wrong',
          'close-honoured-when-not-closable', 'close-not-honoured', 'error-status-missing', 'disk-changed-on-error',
-         'disk-changed-on-read', 'history-dependence', 'route-missing', 'crash:<endpoint>:<site>']
+         'disk-changed-on-read', 'history-dependence', 'route-missing', 'crash:<endpoint>:<site>', 'crash:startup:<site>']
+# Kinds carry sub-labels after further colons (endpoint, class of malformation, raise site), e.g.
+# 'error-status-missing:store:merged-not-notebook:object'; KNOWN is matched by prefix on the full kind, reports are
+# deduplicated on the first two components.
 
 
 def _known(kind):
@@ -94,7 +98,7 @@ def replay_case(where):
 
 def run_bounded(res):
     q = res.tier == 'quick'
-    jobs = [(res.seed * 8191 + 17 * s + 1, 14 if q else 60) for s in range(48 if q else 128)]
+    jobs = [(res.seed * 8191 + 17 * s + 1, 14 if q else 100) for s in range(48 if q else 128)]
     seen = set()
     stats, notes = {}, {}
     for cnt, fails, keys, samples, st, nts in common.pmap(_job, jobs):
@@ -120,7 +124,10 @@ def run_bounded(res):
     if notes:
         res.coverage['skipped'] = notes
     res.coverage['rule'] = (
-        'case = (server mode, files, request sequence), all drawn from the seed. Modes: kind in {plain server, nbmergeweb, nbdifftool, nbmergetool} (cycled) x closable '
+        'case = (server mode, files, request sequence), all drawn from the seed. Modes: kind in {plain server, nbmergeweb, nbdifftool, nbmergetool} (cycled) x server '
+        'parameters obtained by running the real entry point on a command line with run_server/browse replaced by recorders (70%: nbdimeserver.main, nbdiffweb.main, '
+        'nbmergeweb.main, nbdifftool.main, nbmergetool.main, nbdiffweb.handle_gitrefs with file-like blobs; closable = not --persist) or built directly (30%, incl. '
+        'merge tool without output file and no cwd parameter), always started through the real init_app x closable '
         'x base_url in {/, /pre/, /a/b} (cycled) x working directory passed as cwd or taken from the process cwd x output file {none, relative, in a sub-directory, absolute '
         'inside / outside cwd} pre-existing as junk / as a notebook / absent x tool arguments as relative paths, absolute paths, open files or named StringIO blobs, optionally '
         'with the explicit-missing-file base, an empty base file or an unreadable argument. Files: two notebook triples from the nbspace grammar (<= 3 edits a side) under '
@@ -135,6 +142,7 @@ def run_bounded(res):
     res.assumptions.append('bounded: only the stated small scope of modes, files and request sequences is explored')
     res.assumptions.append('jupyter_server/jinja2/requests are the stubs of /verif/stubs (no authentication, XSRF or real templates; requests.get always fails); the '
                            'harness adds JupyterHandler.log and JupyterHandler.render_template to the stub class at run time because nbdime\'s handlers use them')
+    res.assumptions.append('scratch trees live under tempfile.mkdtemp(dir=/dev/shm) when TMPDIR is unset and /dev/shm is writable (the tree is rewritten before every forked run)')
     res.assumptions.append('nbformat.read(as_version=4) defines which notebook a file holds; tornado\'s HTTP server/client transport requests faithfully')
     res.assumptions.append('a process forked from one that imported but never called nbdime has the state of a freshly started server process')
     res.assumptions.append('a valid diff/merge request answered 5xx is not counted when the library call on the same notebooks also raises in a fresh process (C02/C03)')
